@@ -30,6 +30,11 @@ def scenarios(tier):
         for pre in ("recv_data", "recv_timeout"):
             for where in (("co", "thread") if call in ("usleep", "nanosleep") else ("co",)):
                 scs.append({"call": call, "t_us": 250000, "where": where, "pre": pre, "src": "after-socket-io"})
+    # a plain-thread caller is sent a signal (a handler that does nothing) every millisecond while it waits: every one interrupts the
+    # poll its wait is made of, and the wait must go on; with "busy" a coroutine keeps the loop thread away from the selector
+    for call in ("usleep", "nanosleep", "cond", "poll", "select"):
+        for busy in (True, False):
+            scs.append({"call": call, "t_us": 250000, "where": "thread", "signals": True, "busy": busy, "src": "interrupted-by-signals"})
     for call, inv in (("nanosleep", "neg_sec"), ("nanosleep", "neg_nsec"), ("nanosleep", "big_nsec"), ("select", "neg_sec"),
                       ("select", "neg_usec"), ("cond", "neg_nsec"), ("cond", "big_nsec")):
         for where in ("thread", "co"):
@@ -68,6 +73,7 @@ def run(pid, tier):
                                           "entered its sleep (N <= max_size)", "hooked usleep is called through open_coroutine_core::syscall, not through the interposed dylib"])
     mc_runs("TimedWait", [("MC_TimedWait.cfg", None), ("MC_TimedWait_select_us_as_ms.cfg", "NotLate"),
                           ("MC_TimedWait_nominal_slices.cfg", "NotLate"), ("MC_TimedWait_sleep_no_recheck.cfg", "NeverEarly"),
+                          ("MC_TimedWait_eintr_ends_wait.cfg", "NeverEarly"),
                           ("MC_TimedWait_select_negative_abort.cfg", "InvalidRejected")], tier, cov)
     scs = scenarios(tier)
     tpath, info = one_round(bindir, scs, wd, "")
